@@ -173,3 +173,62 @@ pub fn subjects(kind: &str, lits: &[&str], flags: &[bool]) -> Vec<Box<dyn Subjec
     }
     v
 }
+
+/// The public convenience constructors (`from_read`, `from_buf_reader` with a pre-filled BufReader,
+/// `from_boxed_dyn_read`) must behave like `new(LineReader::new(DeferredReader::from_read(..)))`.
+/// Returns the observations (items, end) per constructor for the i32 literal type.
+pub fn via_constructors(kind: &str, input: &[u8]) -> Vec<(&'static str, Vec<String>, End)> {
+    use std::io::{BufRead, BufReader};
+    let mut out = Vec::new();
+    macro_rules! drive {
+        ($name:expr, $parser:expr, $fmt_header:expr, $fmt_clause:expr) => {{
+            let mut items = Vec::new();
+            let end = match $parser {
+                Err(e) => end_of(e),
+                Ok(mut p) => {
+                    if let Some(h) = p.header() {
+                        items.push($fmt_header(h));
+                    }
+                    loop {
+                        match p.next_clause() {
+                            Ok(Some(c)) => items.push($fmt_clause(c)),
+                            Ok(None) => break End::Clean,
+                            Err(e) => break end_of(e),
+                        }
+                    }
+                }
+            };
+            out.push(($name, items, end));
+        }};
+    }
+    let prefilled = |cap: usize| {
+        let mut br = BufReader::with_capacity(cap, input);
+        let _ = br.fill_buf();
+        br
+    };
+    match kind {
+        "cnf" => {
+            let fh = |h: cnf::Header| format!("header vars={} clauses={}", h.var_count, h.clause_count);
+            let fc = |c: &[i32]| format!("clause {}", lits(c));
+            drive!("from_read", cnf::Parser::<i32>::from_read(input, cnf::Config::default()), fh, fc);
+            drive!("from_buf_reader", cnf::Parser::<i32>::from_buf_reader(prefilled(5), cnf::Config::default()), fh, fc);
+            drive!("from_boxed_dyn_read", cnf::Parser::<i32>::from_boxed_dyn_read(Box::new(input), cnf::Config::default()), fh, fc);
+        }
+        "wcnf" => {
+            let fh = |h: wcnf::Header| format!("header vars={} clauses={} top={}", h.var_count, h.clause_count, h.top_weight);
+            let fc = |c: (u64, &[i32])| format!("clause w={} {}", c.0, lits(c.1));
+            drive!("from_read", wcnf::Parser::<i32>::from_read(input, wcnf::Config::default()), fh, fc);
+            drive!("from_buf_reader", wcnf::Parser::<i32>::from_buf_reader(prefilled(5), wcnf::Config::default()), fh, fc);
+            drive!("from_boxed_dyn_read", wcnf::Parser::<i32>::from_boxed_dyn_read(Box::new(input), wcnf::Config::default()), fh, fc);
+        }
+        "gcnf" => {
+            let fh = |h: gcnf::Header| format!("header vars={} clauses={} groups={}", h.var_count, h.clause_count, h.group_count);
+            let fc = |c: (usize, &[i32])| format!("clause g={} {}", c.0, lits(c.1));
+            drive!("from_read", gcnf::Parser::<i32>::from_read(input, gcnf::Config::default()), fh, fc);
+            drive!("from_buf_reader", gcnf::Parser::<i32>::from_buf_reader(prefilled(5), gcnf::Config::default()), fh, fc);
+            drive!("from_boxed_dyn_read", gcnf::Parser::<i32>::from_boxed_dyn_read(Box::new(input), gcnf::Config::default()), fh, fc);
+        }
+        _ => {}
+    }
+    out
+}
